@@ -32,6 +32,14 @@ pub fn run(args: &[String]) -> Outcome
             world.syscall((), |mut c: Commands, r: Reactor<DupReactor>| { r.remove(&mut c, broadcast::<Ping>()); });
             world.react(|rc| rc.broadcast(Ping));
         }
+        "once_duplicate" =>
+        {
+            // a one-off reactor whose bundle repeats a trigger, revoked before any trigger fires: it must never run
+            let world = app.world_mut();
+            let t = world.react(|rc| rc.once((broadcast::<Ping>(), broadcast::<Ping>()), || { RUNS.fetch_add(1, std::sync::atomic::Ordering::SeqCst); }));
+            world.react(|rc| rc.revoke(t));
+            world.react(|rc| rc.broadcast(Ping));
+        }
         _ =>
         {
             // the same system command registered twice with `with`, revoked once with a token naming the trigger once
@@ -46,7 +54,7 @@ pub fn run(args: &[String]) -> Outcome
     let runs = RUNS.load(std::sync::atomic::Ordering::SeqCst);
     // world_reactor: after remove() the reactor must not run at all.  with_twice: one registration (the persistent one)
     // legitimately remains, so exactly one run is expected.
-    let expected = if how == "world_reactor" { 0 } else { 1 };
+    let expected = if how == "world_reactor" || how == "once_duplicate" { 0 } else { 1 };
     Outcome{
         ok: runs == expected,
         json: format!("{{\"scenario\":\"revoke_dup\",\"how\":\"{}\",\"ok\":{},\"observed\":{{\"runs_after_revoke\":{}}},\"expected\":{{\"runs_after_revoke\":{}}}}}",
